@@ -157,12 +157,13 @@ def _ttl_string(lex, st, n3=False):
 
 
 class _Ttl:
-    def __init__(self, st, quads, trig, n3=False):
+    def __init__(self, st, quads, trig, n3=False, ext_base=None):
         self.st = st
         self.trig = trig
         self.n3 = n3
         self.prefixes = {}  # ns -> prefix
         self.base = None
+        self.ext_base = ext_base  # a base the caller of parse() supplies (publicID): the document does not declare it
         nss = []
         for q in quads:
             for t in q:
@@ -175,6 +176,9 @@ class _Ttl:
                 if t is not None and t[0] == "l" and len(t) > 3 and t[3]:
                     nss.append(XSD)
         names = ["ex", "", "a", "p1", "x-y", "rdfs"]
+        if st.random() < 0.3:
+            # prefix labels that look like keywords of the syntax (they are ordinary labels: a colon follows)
+            names = st.choice([["base", "prefix", "graph"], ["prefix", "Base", "a"], ["graph", "PREFIX", "base"]]) + names
         for ns in sorted(set(nss)):
             if st.random() < 0.7 and len(self.prefixes) < len(names):
                 self.prefixes[ns] = names[len(self.prefixes)]
@@ -182,12 +186,21 @@ class _Ttl:
         self.base_cands = cand
         if cand and st.random() < 0.4:
             self.base = st.choice(cand)
+            if st.random() < 0.3:
+                # a base that is just scheme and authority, or has a file name after the last slash: same resolution of the
+                # references below (RFC 3986 5.2), more work for the resolver
+                k = self.base.find("/", 8)
+                self.base_spelled = st.choice([self.base[:k] if k > 0 and self.base.count("/") == 3 else self.base + "doc.ttl", self.base + "doc.ttl", self.base + "index?x=1#top"])
+        if ext_base:
+            self.base, self.base_cands = ext_base, []
+
+    base_spelled = None
 
     def header(self):
         st = self.st
         lines = []
-        if self.base:
-            lines.append((st.choice(["@base <%s> .", "BASE <%s>", "base <%s>"]) if not self.n3 else "@base <%s> .") % self.base)
+        if self.base and not self.ext_base:
+            lines.append((st.choice(["@base <%s> .", "BASE <%s>", "base <%s>"]) if not self.n3 else "@base <%s> .") % (self.base_spelled or self.base))
         for ns, p in self.prefixes.items():
             lines.append((st.choice(["@prefix %s: <%s> .", "PREFIX %s: <%s>", "prefix %s: <%s>", "@prefix  %s:\t<%s>."]) if not self.n3 else "@prefix %s: <%s> .") % (p, ns))
         return lines
@@ -205,6 +218,12 @@ class _Ttl:
                     return p + ":"
         if self.base and iri.startswith(self.base) and st.random() < 0.6:
             return "<" + iri[len(self.base) :] + ">"
+        if self.base and st.random() < 0.25:
+            # absolute-path and network-path references (resolved against scheme / authority of the base)
+            k = self.base.find("/", 8)
+            origin = self.base[:k] if k > 0 else self.base
+            if iri.startswith(origin + "/") and "//" not in iri[len(origin) :]:
+                return "<" + (iri[len(origin) :] if st.random() < 0.7 else iri[iri.find("//") :]) + ">"
         return _nt_iri(iri, st)
 
     def term(self, t, predicate=False):
@@ -251,7 +270,7 @@ class _Ttl:
                 new = st.choice([b for b in self.base_cands if b != self.base])
                 spelled = new[len(self.base) :] if new.startswith(self.base) and st.random() < 0.5 else new
                 out.append((st.choice(["@base <%s> .", "BASE <%s>", "base <%s>"]) if not self.n3 else "@base <%s> .") % spelled)
-                self.base = new
+                self.base, self.base_spelled = new, None
             if st.random() < 0.35:
                 for p, o in pos:  # one statement per triple
                     out.append(f"{indent}{self.term(s)} {self.term(p, True)} {self.term(o)} .")
@@ -288,11 +307,11 @@ def _is_double(lex):
     return re.fullmatch(r"[+-]?(\d+\.\d*[eE][+-]?\d+|\.\d+[eE][+-]?\d+|\d+[eE][+-]?\d+)", lex) is not None
 
 
-def write_turtle(quads, style=None):
+def write_turtle(quads, style=None, ext_base=None):
     st = _st(style)
     if any(g is not None for _, _, _, g in quads):
         raise ValueError("named graph in Turtle")
-    w = _Ttl(st, quads, False)
+    w = _Ttl(st, quads, False, ext_base=ext_base)
     lines = w.header() + [""] + w.block([(s, p, o) for s, p, o, _ in quads])
     eol = st.choice(["\n", "\n", "\r\n", "\r"])
     return eol.join(lines) + eol
@@ -319,9 +338,9 @@ def write_n3(quads, style=None):
     return "\n".join(lines) + "\n"
 
 
-def write_trig(quads, style=None):
+def write_trig(quads, style=None, ext_base=None):
     st = _st(style)
-    w = _Ttl(st, quads, True)
+    w = _Ttl(st, quads, True, ext_base=ext_base)
     lines = w.header() + [""]
     groups = {}
     order = []
@@ -367,7 +386,11 @@ def _xml_esc(s, attr=False):
     return s
 
 
-def write_rdfxml(quads, style=None):
+def write_rdfxml(quads, style=None, ext_base=None):
+    def ref(iri):
+        # (ext_base: the caller of parse() supplies the base, the document writes references relative to it and declares nothing)
+        return iri[len(ext_base) :] if ext_base and iri.startswith(ext_base) and len(iri) > len(ext_base) else iri
+
     # an ambient language on the root element (styled documents only): literals in that language inherit it, plain literals
     # switch it off with xml:lang="", typed literals are unaffected by it
     amb = _st(style).choice([None, None, "en", "de"]) if style is not None else None
@@ -378,11 +401,11 @@ def write_rdfxml(quads, style=None):
             raise ValueError("named graph in RDF/XML")
         i = max(p[1].rfind("#"), p[1].rfind("/")) + 1
         ns, local = p[1][:i], p[1][i:]
-        about = 'rdf:about="%s"' % _xml_esc(s[1], True) if s[0] == "u" else 'rdf:nodeID="%s"' % s[1]
+        about = 'rdf:about="%s"' % _xml_esc(ref(s[1]), True) if s[0] == "u" else 'rdf:nodeID="%s"' % s[1]
         n += 1
         tag = f'p{n}:{local} xmlns:p{n}="{_xml_esc(ns, True)}"'
         if o[0] == "u":
-            body = f'<{tag} rdf:resource="{_xml_esc(o[1], True)}"/>'
+            body = f'<{tag} rdf:resource="{_xml_esc(ref(o[1]), True)}"/>'
         elif o[0] == "b":
             body = f'<{tag} rdf:nodeID="{o[1]}"/>'
         else:
@@ -395,7 +418,7 @@ def write_rdfxml(quads, style=None):
             attrs = la + (f' rdf:datatype="{_xml_esc(dt, True)}"' if dt else "")
             body = f"<{tag}{attrs}>{_xml_esc(o[1])}</p{n}:{local}>"
         base = ""
-        if style is not None and _st(style).random() < 0.5:
+        if style is not None and not ext_base and _st(style).random() < 0.5:
             # an xml:base that changes from element to element: absolute IRIs and rdf:nodeID are unaffected by it
             base = ' xml:base="http://base%d.example/dir/"' % _st(style).randint(1, 3)
         out.append(f"  <rdf:Description{base} {about}>{body}</rdf:Description>")
@@ -441,8 +464,13 @@ def write_trix(quads, style=None):
 # ---------------------------------------------------------------- JSON-LD (expanded form), HexTuples
 
 
-def write_jsonld(quads, style=None):
+def write_jsonld(quads, style=None, ext_base=None):
     def ident(t):
+        if t[0] == "u" and ext_base and t[1].startswith(ext_base) and len(t[1]) > len(ext_base):
+            return t[1][len(ext_base) :]  # relative to the base the caller of parse() supplies
+        return t[1] if t[0] == "u" else "_:" + t[1]
+
+    def tident(t):
         return t[1] if t[0] == "u" else "_:" + t[1]
 
     def obj(t):
@@ -462,7 +490,7 @@ def write_jsonld(quads, style=None):
         for s, p, o in ts:
             n = by.setdefault(ident(s), {"@id": ident(s)})
             if p[1] == RDF + "type" and o[0] in ("u", "b"):
-                n.setdefault("@type", []).append(ident(o))
+                n.setdefault("@type", []).append(tident(o))
             else:
                 n.setdefault(p[1], []).append(obj(o))
         return list(by.values())
